@@ -5,8 +5,10 @@ package main
 // cut at headers with invariants, calls by contract or inlining.
 
 import (
+	"bytes"
 	"fmt"
 	"go/ast"
+	"go/printer"
 	"go/constant"
 	"go/token"
 	"go/types"
@@ -143,6 +145,9 @@ func (vc *VC) ptrVal(pl *Place) Val {
 	v := Val{T: types.NewPointer(pl.Cur), Pl: pl}
 	if pl.Path == "" {
 		v.C = []Term{pl.Addr}
+	} else if _, isArr := pl.Cur.Underlying().(*types.Array); isArr {
+		// pointer to an embedded array: the address of its element 0
+		v.C = []Term{add(pl.Addr, itoa(embOffset(pl.Root, pl.Path)))}
 	} else {
 		v.C = []Term{"<interior:" + pl.Path + ">"}
 	}
@@ -289,7 +294,9 @@ func globalAddr(eng *Engine, g *ssa.Global) Term {
 		idx = len(eng.globalIdx) + 1
 		eng.globalIdx[g] = idx
 	}
-	return itoa(-(int64(idx) << 24) - (1 << 60))
+	t := itoa(-(int64(idx) << 24) - (1 << 60))
+	eng.globalByAddr[t] = g
+	return t
 }
 
 func (fr *Frame) value(v ssa.Value) Val {
@@ -491,6 +498,9 @@ func (vc *VC) run(fn *ssa.Function, args []Val, freeVars []Val, st *State, reach
 					rv.C = append(rv.C, fr.value(r).C...)
 				}
 				rets = append(rets, retInfo{rch, rv, cur})
+				if fr.top && fr.contract != nil {
+					fr.checkEnsuresAt(x, rv, cur, rch)
+				}
 				alive = false
 			case *ssa.Panic:
 				if !fr.noSafety {
@@ -668,7 +678,7 @@ func (fr *Frame) loopClauses(li *loopInfo, kind string) []*Clause {
 	}
 	var out []*Clause
 	for _, cl := range fr.contract.Clauses {
-		if cl.Loop == li.ord && cl.Kind == kind {
+		if (cl.Loop == li.ord || cl.Loop == -1) && cl.Kind == kind {
 			out = append(out, cl)
 		}
 	}
@@ -758,6 +768,20 @@ func (fr *Frame) enterLoop(li *loopInfo, cur *State, rch Term) *State {
 		}
 		vc.assumeIf(rch, vc.wf(fr.vals[phi], st))
 	}
+	// built-in invariant of go/ssa's range lowering: the index φ starts at -1
+	// and is incremented by one per iteration (checked on every back edge)
+	for _, ins := range b.Instrs {
+		phi, ok := ins.(*ssa.Phi)
+		if !ok {
+			break
+		}
+		if phi.Comment == "rangeindex" {
+			vc.assumeIf(rch, sx("<=", "(- 1)", fr.vals[phi].t()))
+			if bound := rangeBound(phi); bound != nil {
+				vc.assumeIf(rch, sx("<", fr.vals[phi].t(), fr.value(bound).t()))
+			}
+		}
+	}
 	env2 := fr.specEnv(st, b)
 	for _, cl := range invs {
 		vc.assumeIf(rch, env2.boolOf(cl.Expr))
@@ -800,6 +824,19 @@ func (fr *Frame) backEdge(li *loopInfo, from *ssa.BasicBlock, cur *State) {
 			if bp == from {
 				fr.vals[phi] = fr.value(phi.Edges[i])
 			}
+		}
+	}
+	for _, ins := range b.Instrs {
+		phi, ok := ins.(*ssa.Phi)
+		if !ok {
+			break
+		}
+		if phi.Comment == "rangeindex" {
+			c := sx("<=", "(- 1)", fr.vals[phi].t())
+			if bound := rangeBound(phi); bound != nil {
+				c = and(c, sx("<", fr.vals[phi].t(), fr.value(bound).t()))
+			}
+			vc.oblige("inv-step", fmt.Sprintf("loop%d.rangeindex", li.ord), guard, c, fr.props, true, vc.pos(b.Instrs[0].Pos()))
 		}
 	}
 	env := fr.specEnv(cur, b)
@@ -879,15 +916,90 @@ func (fr *Frame) checkExit(res Val, out *State, reach Term) {
 	if fr.contract == nil {
 		return
 	}
-	env := fr.specEnvExit(out, res)
-	for _, cl := range fr.contract.Clauses {
-		switch cl.Kind {
-		case "ensures":
-			t := env.boolOf(cl.Expr)
-			vc.oblige("ensures", fr.clauseSite(cl, ""), reach, t, fr.clauseProps(cl), cl.Aux, vc.pos(fr.fn.Pos()))
-		}
-	}
+	_ = vc
 	fr.checkAssigns(out, reach)
 }
 
+// checkEnsuresAt checks every ensures clause at one return statement (one
+// obligation per clause and return: smaller queries, better diagnostics).
+func (fr *Frame) checkEnsuresAt(ret *ssa.Return, res Val, st *State, reach Term) {
+	vc := fr.vc
+	nret := 0
+	for _, b := range fr.fn.Blocks {
+		if len(b.Instrs) > 0 {
+			if _, ok := b.Instrs[len(b.Instrs)-1].(*ssa.Return); ok {
+				nret++
+			}
+		}
+	}
+	suffix := ""
+	if nret > 1 {
+		suffix = "@" + fr.returnSite(ret)
+	}
+	env := fr.specEnvExit(st, res)
+	for _, cl := range fr.contract.Clauses {
+		if cl.Kind != "ensures" {
+			continue
+		}
+		t := env.boolOf(cl.Expr)
+		vc.oblige("ensures", fr.clauseSite(cl, "")+suffix, reach, t, fr.clauseProps(cl), cl.Aux, vc.pos(ret.Pos()))
+	}
+}
+
+func (fr *Frame) returnSite(ret *ssa.Return) string {
+	eng := fr.vc.eng
+	pos := ret.Pos()
+	if !pos.IsValid() {
+		return "return"
+	}
+	fn := fr.fn
+	syn := fn.Syntax()
+	if syn == nil {
+		return "return"
+	}
+	var found ast.Node
+	ast.Inspect(syn, func(n ast.Node) bool {
+		if r, ok := n.(*ast.ReturnStmt); ok && r.Pos() == pos {
+			found = r
+		}
+		return found == nil
+	})
+	if found == nil {
+		return "return"
+	}
+	var buf bytes.Buffer
+	printer.Fprint(&buf, eng.fset, found)
+	s := strings.Join(strings.Fields(buf.String()), " ")
+	if len(s) > 50 {
+		s = s[:50]
+	}
+	return s
+}
+
 var _ = ast.Inspect
+
+// rangeBound recognises go/ssa's range-over-slice lowering
+//	i = phi [-1, i+1]; i1 = i + 1; if i1 < n
+// and returns n (defined before the loop).
+func rangeBound(phi *ssa.Phi) ssa.Value {
+	b := phi.Block()
+	for _, ins := range b.Instrs {
+		cmp, ok := ins.(*ssa.BinOp)
+		if !ok || cmp.Op != token.LSS {
+			continue
+		}
+		inc, ok := cmp.X.(*ssa.BinOp)
+		if !ok || inc.Op != token.ADD || inc.X != phi {
+			continue
+		}
+		if c, ok := inc.Y.(*ssa.Const); !ok || c.Int64() != 1 {
+			continue
+		}
+		if v, ok := cmp.Y.(ssa.Instruction); ok {
+			if v.Block() != b && v.Block().Dominates(b) {
+				return cmp.Y
+			}
+		}
+	}
+	return nil
+}
